@@ -1,7 +1,7 @@
 ID = "C18"
 TESTS = [
     T("nfs40sim", "TestC18NFS40OpenAccounting",
-      {"checks": 2500, "shards": 2, "timeout": 300},
+      {"checks": 3000, "shards": 2, "timeout": 300},
       {"checks": 20000, "shards": 16, "timeout": 1500}),
 ]
 ASSUMPTIONS = [
